@@ -661,3 +661,136 @@ Proof.
   do 4 f_equal.
   apply flat_map_ext_in. intros b Hb. unfold ballot_line. now rewrite mult_of_retable.
 Qed.
+
+(* ================================================================================================ *)
+(* D.1 the written file as a list of lines                                                          *)
+(* ================================================================================================ *)
+Definition count_lines (i : cinst) : list text :=
+  [ lit "# NUMBER ALTERNATIVES:" ++ 32%N :: show_N (num_alternatives (c_meta i));
+    lit "# NUMBER VOTERS:" ++ 32%N :: show_N (num_voters (c_meta i));
+    lit "# NUMBER UNIQUE PREFERENCES:" ++ 32%N :: show_N (c_num_unique i);
+    lit "# NUMBER CATEGORIES:" ++ 32%N :: show_N (c_num_categories i) ].
+Definition cat_name_lines (d : list (N * text)) : list text :=
+  map (fun p => name_line cat_name_prefix (fst p) (snd p)) d.
+Definition ballot_text (mu : list (ballot * N)) (b : ballot) : text :=
+  show_N (mult_of mu b) ++ lit ": " ++ strip_chars (lit ", ") (pref_str b).
+
+Lemma unlines_app a b : unlines (a ++ b) = unlines a ++ unlines b.
+Proof. apply flat_map_app. Qed.
+
+Lemma write_counts_lines i : write_counts i = unlines (count_lines i).
+Proof.
+  unfold write_counts, unlines, count_lines. cbn [flat_map lit].
+  repeat (rewrite <- ?app_assoc; cbn [app]). reflexivity.
+Qed.
+
+Lemma write_cat_names_lines d : write_cat_names d = unlines (cat_name_lines d).
+Proof.
+  unfold write_cat_names, unlines, cat_name_lines. induction d as [|[a nm] r IH]; [reflexivity|].
+  cbn [flat_map map fst snd]. rewrite IH. f_equal.
+  unfold name_line, name_key, cat_name_prefix. cbn [lit]. repeat (rewrite <- ?app_assoc; cbn [app]). reflexivity.
+Qed.
+
+Lemma ballot_line_text mu b : ballot_line mu b = ballot_text mu b ++ nl.
+Proof. unfold ballot_line, ballot_text. now rewrite <- !app_assoc. Qed.
+
+Lemma write_ballots_lines mu l : flat_map (ballot_line mu) l = unlines (map (ballot_text mu) l).
+Proof.
+  unfold unlines. induction l as [|b r IH]; [reflexivity|]. cbn [flat_map map].
+  now rewrite IH, ballot_line_text.
+Qed.
+
+Definition header_lines (i : cinst) : list text :=
+  meta_lines (c_meta i) ++ count_lines i ++ cat_name_lines (c_cat_names i) ++
+  alt_name_lines (alt_names (c_meta i)).
+
+Lemma cat_write_lines i :
+  cat_write i = unlines (header_lines i ++ map (ballot_text (c_mult i)) (sorted_prefs i)).
+Proof.
+  unfold cat_write, header_lines. rewrite !unlines_app.
+  rewrite write_metadata_lines, write_counts_lines, write_cat_names_lines, write_alt_names_lines,
+    write_ballots_lines. now rewrite <- !app_assoc.
+Qed.
+
+(* ---- no line contains a line boundary ---- *)
+Definition printable (c : N) : bool := (32 <=? c)%N && (c <=? 125)%N.
+
+Lemma printable_no_break s : forallb printable s = true -> no_break s = true.
+Proof.
+  apply forallb_impl. intros c H. unfold printable in H. apply andb_true_iff in H as [A B].
+  apply N.leb_le in A. apply N.leb_le in B. unfold is_linebreak.
+  repeat match goal with
+    | |- context [(?a <=? c)%N] => destruct (N.leb_spec a c); try lia
+    | |- context [(c <=? ?a)%N] => destruct (N.leb_spec c a); try lia
+    | |- context [(c =? ?a)%N] => destruct (N.eqb_spec c a); try lia
+    end; reflexivity.
+Qed.
+
+Lemma digit_printable c : is_digit c = true -> printable c = true.
+Proof.
+  unfold is_digit, printable. intros H. apply andb_true_iff in H as [A B].
+  apply N.leb_le in A. apply N.leb_le in B. apply andb_true_iff. split; apply N.leb_le; lia.
+Qed.
+
+Lemma show_N_printable n : forallb printable (show_N n) = true.
+Proof. eapply forallb_impl; [apply digit_printable|apply show_N_digits]. Qed.
+
+Lemma show_N_no_break n : no_break (show_N n) = true.
+Proof. apply printable_no_break, show_N_printable. Qed.
+
+Lemma no_break_app a b : no_break (a ++ b) = no_break a && no_break b.
+Proof. apply forallb_app. Qed.
+
+Lemma bchar_printable c : bchar c = true -> printable c = true.
+Proof.
+  unfold bchar, is_run. intros H. repeat (apply orb_true_iff in H as [H|H]).
+  - now apply digit_printable.
+  - apply N.eqb_eq in H. now subst.
+  - apply N.eqb_eq in H. now subst.
+  - apply N.eqb_eq in H. now subst.
+Qed.
+
+Lemma remove_sp_forallb (P : N -> bool) s :
+  forallb P (remove_sp s) = true -> forallb (fun c => P c || (c =? 32)%N) s = true.
+Proof.
+  unfold remove_sp. induction s as [|c r IH]; [reflexivity|]. simpl.
+  destruct (N.eqb_spec c 32) as [->|Hne]; simpl.
+  - intros H. rewrite orb_true_r. simpl. now apply IH.
+  - intros H. apply andb_true_iff in H as [Hc Hr]. rewrite Hc. simpl. now apply IH.
+Qed.
+
+Lemma body_printable c b : forallb printable (body c b) = true.
+Proof.
+  assert (H : forallb bchar (remove_sp (body c b)) = true).
+  { rewrite remove_sp_body, forallb_app, cat_str_ns_bchars. apply items_bchars. }
+  apply remove_sp_forallb in H. revert H. apply forallb_impl. intros x Hx.
+  apply orb_true_iff in Hx as [Hx|Hx]; [now apply bchar_printable|].
+  apply N.eqb_eq in Hx. now subst.
+Qed.
+
+Lemma ballot_text_no_break mu c b : no_break (ballot_text mu (c :: b)) = true.
+Proof.
+  unfold ballot_text. rewrite strip_pref_str. apply printable_no_break.
+  rewrite !forallb_app. rewrite show_N_printable, body_printable. reflexivity.
+Qed.
+
+Lemma count_line_no_break K n : forallb printable K = true -> no_break (K ++ 32%N :: show_N n) = true.
+Proof.
+  intros H. apply printable_no_break. rewrite forallb_app, H. cbn [forallb andb].
+  rewrite show_N_printable. reflexivity.
+Qed.
+
+Lemma count_lines_no_break i : forallb no_break (count_lines i) = true.
+Proof.
+  unfold count_lines. cbn [forallb]. rewrite !count_line_no_break by reflexivity. reflexivity.
+Qed.
+
+Lemma name_lines_no_break prefix d :
+  no_break prefix = true -> Forall (fun p => wf_field (snd p)) d ->
+  forallb no_break (map (fun p => name_line prefix (fst p) (snd p)) d) = true.
+Proof.
+  intros Hp. induction 1 as [|[a nm] r [Hv Hb] Hr IH]; [reflexivity|].
+  cbn [map forallb fst snd]. rewrite IH, andb_true_r.
+  unfold name_line, name_key. rewrite !no_break_app. rewrite Hp, show_N_no_break.
+  cbn [snd] in Hb. unfold no_break in *. cbn [forallb]. now rewrite Hb.
+Qed.
